@@ -701,8 +701,19 @@ func (p *Primary) getWALEntriesFromSequence(fromSequence uint64) ([]*wal.Entry, 
 		}
 	}
 
-	// Limit the number of entries to return to avoid overwhelming the network
+	// Limit the number of entries to return to avoid overwhelming the network, and their
+	// volume so that the message stays well below what a replica accepts (gRPC refuses
+	// messages above its receive limit, 4 MB by default)
 	maxEntriesToReturn := 100
+	maxBytesToReturn := 1024 * 1024
+	size := 0
+	for i, entry := range allEntries {
+		size += len(entry.Key) + len(entry.Value)
+		if size > maxBytesToReturn && i+1 < maxEntriesToReturn {
+			maxEntriesToReturn = i + 1
+			break
+		}
+	}
 	if len(allEntries) > maxEntriesToReturn {
 		// Never cut a batch: the entries of one WAL batch (a transaction) share a
 		// sequence number and the replica moves on to the next number after a message
